@@ -46,6 +46,17 @@ def frank_limit(tau):
     return 5e-3 if abs(tau) < 0.05 else 2e-5
 
 
+def perm_with_inversions(n, k):
+    """a permutation of 1..n with exactly k inversions (greedy Lehmer code)"""
+    code = []
+    for i in range(n):
+        c = min(k, n - 1 - i)
+        code.append(c)
+        k -= c
+    pool = list(range(1, n + 1))
+    return [pool.pop(c) for c in code]
+
+
 def given_cases(seed, count):
     """random longer rank columns: small and large |tau|, with and without ties"""
     rs = np.random.RandomState(seed)
@@ -73,6 +84,13 @@ def given_cases(seed, count):
             y[a], y[a + 1] = y[a + 1], y[a]
         out.append({'x': list(range(1, n + 1)), 'y': y})
         out.append({'x': list(range(1, n + 1)), 'y': y[::-1]})
+    # long columns whose Kendall tau is negative by a hair (concordant and discordant pairs differ by one or two): Clayton and Gumbel
+    # have no admissible parameter however small the deficit is
+    for n, deficit in ((450, 1), (452, 2)):
+        n0 = n * (n - 1) // 2
+        inv = (n0 + deficit) // 2              # number of discordant pairs; S = n0 - 2 inv = -deficit (n0 + deficit is even here)
+        if (n0 + deficit) % 2 == 0:
+            out.append({'x': list(range(1, n + 1)), 'y': perm_with_inversions(n, inv)})
     # constant columns of several lengths (the values come from pseudo_obs: 0.175, 0.5, 0.275, 1/16 ...)
     for n in (3, 5, 6, 7, 10, 12, 20, 33):
         for c in (1, 2, 3):
@@ -256,7 +274,7 @@ def run(ctx):
     from copulas.bivariate import Clayton, Frank, Gumbel
     rs = np.random.RandomState(ctx.seed)
     for cls in (Clayton, Frank, Gumbel):
-        for bad in (-1e-9, 1.0000001, 2.0, -0.5):
+        for bad in (-1e-9, 1.0000001, 2.0, -0.5, -1e-17, -5e-324, float(np.nextafter(1.0, 2.0)), float('inf')):
             X = rs.uniform(0.05, 0.95, size=(12, 2))
             X[:, 1] = (X[:, 0] + X[:, 1]) / 2
             X[int(rs.randint(12)), int(rs.randint(2))] = bad
